@@ -433,6 +433,12 @@ theorem evalNode_graph (ef : Node → St → Res × St) (hef : EvalG env lt ef) 
     CalleeG env lt (evalNode env ef) := by
   intro m s g hidx hlen hbelow
   unfold evalNode
+  by_cases ha : env.alive m.1 = true
+  case neg =>
+    have ha' : env.alive m.1 = false := by simpa using ha
+    simp only [ha', Bool.false_eq_true, if_false]
+    exact ⟨GI.of_sameG (s := s) (s' := s.newExc) ⟨rfl, rfl, rfl, rfl, rfl, rfl⟩ g, rfl, rfl, Ext.of_data rfl⟩
+  simp only [ha, if_true]
   by_cases hc : env.cached m.1 = true
   · simp only [hc, if_true]
     cases hl : lookup s.data m with
